@@ -23,7 +23,7 @@ HASHSEEDS = ["0", "1", "2", "3"]
 BUDGET = {
     # prop: (quick runs, thorough runs)
     "C01": (5000, 100000), "C02": (5000, 100000), "C03": (4000, 80000), "C04": (4000, 80000),
-    "C05": (5000, 100000), "C06": (2400, 40000), "C07": (4000, 60000), "C08": (2000, 30000),
+    "C05": (5000, 100000), "C06": (2400, 40000), "C07": (4000, 60000), "C08": (6000, 60000),
     "C09": (2400, 40000), "C10": (3000, 50000), "C11": (6000, 100000), "C16": (4000, 60000),
     "C17": (1600, 24000), "C18": (4000, 60000), "C19": (3000, 50000),
 }
@@ -214,6 +214,7 @@ def check_main(prop, tier, workers=16, nruns=None, evidence=True):
     violations = []
     samples = []
     collateral = Counter()
+    collateral_at = {}
     extra_acc = {}
     steps = 0
     for d in lines:
@@ -226,6 +227,7 @@ def check_main(prop, tier, workers=16, nruns=None, evidence=True):
         trigrams.update(d["trigrams"])
         for c in d.get("collateral", []):
             collateral[c] += 1
+            collateral_at.setdefault(c, d["index"])
         for k in d["known"]:
             known.setdefault(k["what"], k)
         if d.get("violation"):
@@ -330,6 +332,10 @@ def check_main(prop, tier, workers=16, nruns=None, evidence=True):
     zero = [k for k in expected_probes(prop) if probes.get(k, 0) == 0]
     if zero:
         print(f"  note: rare-condition probes at zero: {zero}")
+    for c, k in collateral.most_common(5):
+        # not this check's verdict (the finding is tagged with other properties only), but shown:
+        # on the unchanged tree it needs the same triage as a violation
+        print(f"  note: finding of another property in this world: {c} x{k} (first at index {collateral_at[c]})")
     for what, k in sorted(known.items()):
         print(f"KNOWN-FINDING: property={prop} {what}")
     if harness:
